@@ -861,7 +861,10 @@ bool Runner<T>::step(const Op& op0, std::size_t index)
         case EMPLACE_BACK:
             expect_raise = sz >= cap;
             after.v.push_back(op.vals[0]);
-            got_value = static_cast<int>(slot[a]->emplace_back(op.vals[0]));
+            if (op.fault == 0 && op.vals[0] % 3 == 0)
+                got_value = static_cast<int>(slot[a]->emplace_back(T(op.vals[0])));
+            else
+                got_value = static_cast<int>(slot[a]->emplace_back(op.vals[0]));
             if (!expect_raise && static_cast<std::size_t>(got_value) != sz)
                 fail("emplace_back returned index " + std::to_string(got_value) + " (" + when + ")");
             break;
@@ -956,7 +959,14 @@ bool Runner<T>::step(const Op& op0, std::size_t index)
                 after.v.insert(after.v.begin() + static_cast<long>(pos), op.vals[0]);
             if (pos < sz)
                 interesting07 = true;
-            slot[a]->emplace(slot[a]->begin() + pos, op.vals[0]);
+            // the element is built from constructor arguments, or handed over as a finished temporary
+            if (op.fault == 0 && op.vals[0] % 3 == 0)
+            {
+                ctx.tag("op:emplace-from-temporary-element");
+                slot[a]->emplace(slot[a]->begin() + pos, T(op.vals[0]));
+            }
+            else
+                slot[a]->emplace(slot[a]->begin() + pos, op.vals[0]);
             break;
         }
         case ERASE:
